@@ -43,13 +43,15 @@ CLAIMED = {
  "C20": dict(cat="proof", tech=KV + ", loop-free over all epochs + " + VX + " (signer-side eligibility gate; both epoch services: which offset keys which store access)",
              text="PARTIAL: the epoch-offset algebra shared by signer and aggregator (a key recorded at e is retrieved for signing at e + signing offset; next signers of e are current signers of e+1; retrieval fails exactly at epoch 0), both epoch services keyed by exactly those offsets (key material / signer set in force at e = saved / recorded under e - 1, next under e, registration settings under e + 1; aggregate keys from SignerBuilder on exactly those sets), and the signer's gate can_signer_sign_current_epoch (true only with stored key material for the epoch whose key is the one listed for this party).",
              note="At-most-once signing per beacon, restarts and acceptance by the aggregator at run level (async state machines over SQLite) are not decided.", ref="§4 C20"),
+ "C10": dict(cat="proof", tech=VX + " (the client's acceptance decision for a restored database)",
+             text="PARTIAL: verify_cardano_database accepts only if no file of the requested range is missing (unless allowed), every computed (file name, digest) entry equals the digest the verified digest list assigns to that very file name, and the returned Merkle proof is the verified tree's proof for exactly those digests and verifies. Found and repaired: the unrepaired code accepted swapped / duplicated / out-of-range certified files (F-C10-1).",
+             note="That the digest list itself reproduces the Merkle root signed in the certificate (download, unpack, JSON, MKTree construction), the digester (C12), file-system effects and the CLI's reporting are NOT decided.", ref="§0.2 C10"),
  "C14": dict(cat="proof", tech=VX + " (the aggregator's certifier service and epoch service)",
              text="PARTIAL: the clauses decided at the moment a certificate is sealed or a signature registered: create_certificate seals only an existing, uncertified, unexpired open message, for exactly its epoch / protocol message / signed entity type / multi-signature, with the aggregate key and parameters the epoch service holds as current (themselves SignerBuilder's result for the signer set recorded under e - 1), linked to the repository's master certificate of that epoch, verified by the certificate verifier before being stored, and marks the open message certified; register_single_signature stores only signatures the multi-signer accepted for an open, unexpired, uncertified message; verify_certificate_chain refuses an epoch gap.",
              note="Run-level clauses (every stored certificate verifies to genesis for every run, quorum of registered signers, no double certification across interleavings / restarts, first-of-epoch linking decided by SQL, stopping after a skipped epoch as state-machine behaviour) are NOT decided: they need the async state machine and the database.", ref="§0.2 C14"),
 }
 NA = {
  "C04": "Tamper-evidence is injectivity of a byte-string pre-image built from Strings, chrono timestamps, JSON-hex keys and serde_json round trips under SHA-256: Verus has no str/byte reasoning, CBMC cannot execute serde/JSON/hex symbolically beyond a few bytes, and 'different pre-image => different hash' is an assumption, so no contract within reach expresses or decides it.",
- "C10": "The acceptance decision is computed inline in an async routine over the file system, a digester task and Merkle-mountain-range calls; no function boundary exists at which 'content bound to file name' can be stated without modelling the directory, and neither verifier accepts that code.",
  "C12": "Quantifies over directory layouts, file contents and cache histories; the code is walkdir/std::fs/tokio spawn_blocking plus an async cache provider - I/O that neither Kani (FFI) nor Verus can execute; the property is about the environment, not about one call.",
  "C13": "A convergence property over histories of roll-forward / roll-back / restart against SQLite; the mechanism is SQL executed by an external engine. Contracts on the Rust wrappers would only restate the SQL text.",
  "C15": "Crash points between persistence steps: a property of process death and restart, not expressible as pre/postcondition of any function that returns.",
